@@ -7,7 +7,9 @@ import (
 	"go/types"
 	"math/big"
 	"os"
+	"sort"
 	"strings"
+	"time"
 
 	"golang.org/x/tools/go/ssa"
 
@@ -389,6 +391,9 @@ func (fr *Frame) exec(blk, prev, stop *ssa.BasicBlock, phisDone bool) execResult
 			if it.steps > it.Cfg.MaxSteps {
 				it.abortf("step budget exceeded in %s", fr.fn)
 			}
+			if it.steps&1023 == 0 {
+				checkDeadline()
+			}
 			switch x := in.(type) {
 			case *ssa.Phi:
 				continue
@@ -587,7 +592,7 @@ func condTerm(c Value) *Term {
 // post-dominator and merges the states.
 func (fr *Frame) join(blk *ssa.BasicBlock, x *ssa.If, cond Value, stop *ssa.BasicBlock) execResult {
 	it := fr.it
-	if it.joining[blk] > 0 {
+	if it.joining[blk] > 300 {
 		top, _ := cond.(Top)
 		if top.Taint {
 			it.event("tainted-loop", fr.fn, ifPos(x), "loop exit depends on a secret value")
@@ -595,6 +600,7 @@ func (fr *Frame) join(blk *ssa.BasicBlock, x *ssa.If, cond Value, stop *ssa.Basi
 		it.abortf("loop in %s whose exit test is data-dependent (%s)", fr.fn, show(cond))
 	}
 	it.joining[blk]++
+	checkDeadline()
 	J := it.cfg(fr.fn).ipdom[blk]
 	a := fr.runArm(blk.Succs[0], blk, J)
 	b := fr.runArm(blk.Succs[1], blk, J)
@@ -667,6 +673,21 @@ func (fr *Frame) join(blk *ssa.BasicBlock, x *ssa.If, cond Value, stop *ssa.Basi
 	}
 	if J == nil {
 		it.abortf("join without post-dominator in %s", fr.fn)
+	}
+	// registers that existed before the branch and were re-defined inside an arm (an arm that runs through a
+	// loop header re-evaluates the header's phis, and the header dominates J): merge them too
+	for k, old := range fr.regs {
+		va, oka := a.regs[k]
+		vb, okb := b.regs[k]
+		if !oka {
+			va = old
+		}
+		if !okb {
+			vb = old
+		}
+		if !valueEq(va, old) || !valueEq(vb, old) {
+			fr.regs[k] = it.mergeValue(p, cond, va, vb)
+		}
 	}
 	// phis of J
 	for _, in := range J.Instrs {
@@ -1195,4 +1216,58 @@ func (it *Interp) DeepApplyPoly(p *Poly) *Poly {
 		}
 	}
 	return p
+}
+
+// Assumption is one predicate atom fixed on the current path.
+type Assumption struct {
+	Atom *PAtom
+	Val  bool
+}
+
+// Assumptions lists the path's assumptions (sorted by atom id).
+func (it *Interp) Assumptions() []Assumption {
+	var out []Assumption
+	for a, v := range it.assume {
+		out = append(out, Assumption{a, v})
+	}
+	sort.Slice(out, func(i, j int) bool { return out[i].Atom.ID < out[j].Atom.ID })
+	return out
+}
+
+// IszVarName returns the name of the free field symbol x if a is the atom [x = 0], else "".
+func IszVarName(a *PAtom) string {
+	if a.Kind != PISZ || len(a.V.mons) != 1 {
+		return ""
+	}
+	for _, m := range a.V.mons {
+		if len(m.vars) == 1 && m.vars[0].v.Kind == FSym && m.vars[0].e.Cmp(bigOne) == 0 && m.c.Cmp(bigOne) == 0 {
+			return m.vars[0].v.Name
+		}
+	}
+	return ""
+}
+
+// MentionsFieldSymbol reports whether the atom is about field values (as opposed to lengths, bytes, flags).
+func MentionsFieldSymbol(a *PAtom) bool {
+	return a.Kind == PISZ
+}
+
+// Deadline bounds the wall-clock time of the analyses of one process: a computation that runs into it is
+// outside what the domains can follow, and the check reports UNDECIDED (exit 1) instead of hanging.
+var Deadline time.Time
+
+var ticks int
+
+// tick is called from the algebra's inner operations; every 256th call looks at the clock.
+func tick() {
+	ticks++
+	if ticks&255 == 0 {
+		checkDeadline()
+	}
+}
+
+func checkDeadline() {
+	if !Deadline.IsZero() && time.Now().After(Deadline) {
+		panic(&abort{"analysis time budget exceeded (the code does something the abstract domains cannot follow in bounded time, e.g. a data-dependent loop over field arithmetic)"})
+	}
 }
